@@ -3,7 +3,7 @@ import numpy as np
 from hypothesis import strategies as st
 from numpy.fft import fftfreq, fftshift
 
-from ..core import check, lib, raises, Guard
+from ..core import Violation, check, lib, raises, Guard
 from ..lib import reset, gv, D, electrical_signal, optical_signal
 from ..runner import Part
 from ..sigs import s_gv, apply_gv, contract
@@ -71,6 +71,12 @@ def e_lin(c):
             Yg = lib(D.LPF, x1.copy(), BW, **okw)
             check(np.array_equal(Yf.signal, Yg.signal), "lpf-fs-argument-ignored", "")
             gv(sps=sps, fs=fs)
+            # ... and with the noise-bearing container: both components filtered at the rate given
+            Xf = lib(D.LPF, X, BW, fs=f2, **okw)
+            check(np.array_equal(Xf.signal, Yf.signal), "lpf-fs-argument-ignored", "container signal")
+            if nz is not None:
+                check(Xf.noise is not None and np.array_equal(Xf.noise, lib(D.LPF, nz.copy(), BW, fs=f2, **okw).signal), "lpf-noise-filtered-differently",
+                      "explicit fs= different from gv.fs")
         lin = F(a * x1 + b * x2).signal
         ref = a * F(x1).signal + b * F(x2).signal
         check(relerr(lin, ref) <= 1e-9, "lpf-not-linear", f"rel err {relerr(lin, ref):.2e}")
@@ -209,6 +215,16 @@ def e_tone(c):
         for kk, gg in zip(ks, gains):
             ik = int(np.argmin(np.abs(f - kk * fs / N)))
             check(abs(abs(H[ik]) ** 2 - gg) <= 1e-6, "retH!=applied-filter", f"bin {kk}: |H|^2 {abs(H[ik]) ** 2:.8f} vs measured gain {gg:.8f}")
+        # the caller owns the returned response: converting it in place (e.g. to dB) must not change what the same call returns next
+        H_first = H.copy()
+        try:
+            H[...] = 20 * np.log10(np.abs(H) + 1e-300)
+        except ValueError:
+            raise Violation("retH-not-writable", "") from None
+        out1, H1 = lib(D.LPF, x, BW, order, None, True)
+        check(H1 is not H and np.array_equal(H1, H_first) and np.array_equal(out1.signal, out.signal), "retH-results-share-state",
+              f"max |H(second call) - H(first call)| = {np.max(np.abs(H1 - H_first)):.3e} after the first result was edited in place")
+        H = H_first
         # the same through the explicit fs= argument while gv holds another sampling rate: same grid, same response
         gv(sps=sps, fs=fs * 2.5)
         out2, H2 = lib(D.LPF, x, BW, order, fs, True)
